@@ -11,9 +11,10 @@ package sio
 // wfCrew: the representation invariant of a Crew after init.
 //@ spec wfCtl(ctl) = ctl != nil ==> ctl.Limit >= 0 && forall id string :: (id in ctl.Breakpoints) ==> ctl.Breakpoints[id] != nil
 //@ spec wfCrew(c) = c != nil && c.Machines != nil && c.changed != nil && c.previous != nil && c.Conf != nil && wfCtl(c.Conf.Ctl) &&
-//@                  forall k string :: (k in c.Machines) ==> c.Machines[k] != nil && c.Machines[k].State != nil && c.Machines[k].State.Bs != nil
+//@                  forall k string :: (k in c.Machines) ==> c.Machines[k] != nil && c.Machines[k].State != nil && c.Machines[k].State.Bs != nil && c.Machines[k].Id == k
 
-//@ spec wfChanged(c) = forall k string :: (k in c.changed) ==> c.changed[k] != nil
+//@ spec wfChanged(c) = (forall k string :: (k in c.changed) ==> c.changed[k] != nil && (c.changed[k].Deleted ==> !(k in c.Machines))) &&
+//@                     (forall j string, k string :: (j in c.changed) && (k in c.changed) && j != k ==> c.changed[j] != c.changed[k])
 
 //@ iface core.Specter.Spec(recv) returns (s)
 //@   modifies nothing
@@ -62,7 +63,7 @@ package sio
 // (ghost set `delivered`, owned by RunMachines).
 //@ func (*Crew).RunMachine returns walked, err
 //@   safety C14, C15
-//@   requires wfCrew(c) && wfChanged(c) && m != nil && m.State != nil && m.State.Bs != nil
+//@   requires wfCrew(c) && wfChanged(c) && m != nil && m.State != nil && m.State.Bs != nil && (m.Id in c.Machines)
 //@   requires[C14] once: !ghostin(delivered, m.Id)
 //@   ghostadd delivered m.Id
 //@   modifies m, c.changed, c.changed[m.Id]
@@ -118,9 +119,33 @@ package sio
 //@   ensures[C15] others: forall k string :: k != mid ==> ((k in c.Machines) <==> old(k in c.Machines)) && c.Machines[k] == old(c.Machines[k])
 //@   ensures wfChanged(c)
 
+//@ extern encoding/json.Marshal(v) returns (b, err)
+//@   modifies nothing
+
+// GetChanged: the pending change set is drained; the captain is never reported;
+// a deleted machine is reported as exactly {Deleted}.
+//@ func (*Crew).GetChanged returns changed, err
+//@   safety C15
+//@   requires wfCrew(c) && wfChanged(c)
+//@   ensures[C15] drained: err == nil ==> forall k string :: !(k in c.changed)
+//@   ensures[C15] nocaptain: err == nil ==> !("captain" in changed)
+//@   ensures[C15] deletedshape: err == nil ==> forall k string :: (k in changed) && changed[k].Deleted ==> changed[k].State == nil && changed[k].SpecSrc == nil
+//@   ensures[C15] subset: err == nil ==> forall k string :: (k in changed) ==> old(k in c.changed)
+//@   loop 0 invariant wfChanged(c) && changed != nil && fresh(changed) && c.changed != nil && c.previous != nil
+//@   loop 0 invariant[C15] forall k string :: seen(0)[k] ==> !(k in c.changed)
+//@   loop 0 invariant[C15] forall k string :: (k in c.changed) ==> atloop(k in c.changed)
+//@   loop 0 invariant[C15] forall k string :: (k in changed) ==> seen(0)[k]
+//@   loop 0 invariant[C15] !("captain" in changed) && forall k string :: (k in changed) ==> changed[k] != nil && fresh(changed[k]) && old(k in c.changed)
+//@   loop 0 invariant[C15] forall k string :: (k in changed) && changed[k].Deleted ==> changed[k].State == nil && changed[k].SpecSrc == nil
+//@   loop 1 invariant changed != nil && fresh(changed) && c.previous != nil
+//@   loop 1 invariant[C15] !("captain" in changed) && forall k string :: (k in changed) ==> changed[k] != nil && fresh(changed[k]) && old(k in c.changed)
+//@   loop 1 invariant[C15] forall k string :: (k in changed) && changed[k].Deleted ==> changed[k].State == nil && changed[k].SpecSrc == nil
+//@   loop 1 invariant[C15] forall k string :: !(k in c.changed)
+
 //@ func (*Crew).RunMachines returns acc, err
 //@   safety C14
 //@   ghostset delivered
 //@   requires wfCrew(c) && wfChanged(c)
 //@   ensures[C14] noerr: err == nil && acc != nil
 //@   loop 0 invariant wfCrew(c) && wfChanged(c)
+//@   loop 0 invariant[C14] once: forall k string :: ghostin(delivered, k) ==> (k in presented) && presented[k]
